@@ -271,7 +271,7 @@ func genSequence(r *kit.Rng, n int, s *kit.Summary) []res {
 	if collide {
 		base := r.PickStr([]string{"http://api.test/items/", "http://h/", "http://localhost:8080/v"})
 		family = []lab{{"GET", base, 200}, {"GET", base + "20", 0}, {"GET", base + "2", 0}, {"GET", base + "5", 3}, {"GET", base, 53},
-			{"GE", "T" + base, 200}, {"GETh", base[1:], 200}, {"GET", base + "40", 4}, {"GET", base + "4", 404}, {"GET", base, 4044}}
+			{"GE", "T" + base, 200}, {"GETh", base[1:], 200}, {"GET", base + "40", 4}, {"GET", base + "4", 404}, {"GET", base, 4044}, {"GET", base, 404}, {"GET", base + "4", 4}}
 		s.Count("labels:colliding_family")
 	}
 	out := make([]res, n)
